@@ -15,13 +15,13 @@ TEXT = {
 NOT_APPLICABLE = []
 
 import importlib, os
-for _t in ("thrift2", "pb", "idl", "gen"):
+for _t in ("thrift2", "thrift3", "pb", "idl", "gen"):
     if os.path.exists(os.path.join(os.path.dirname(os.path.abspath(__file__)), f"manifest_text_{_t}.py")):
         _m = importlib.import_module(f"manifest_text_{_t}")
         TEXT.update(_m.TEXT)
 
 # every property not claimed is listed with its reason (kept current by the tracks)
 _REASONS = {}
-for _t in ("thrift2", "pb", "idl", "gen"):
+for _t in ("thrift2", "thrift3", "pb", "idl", "gen"):
     if os.path.exists(os.path.join(os.path.dirname(os.path.abspath(__file__)), f"manifest_text_{_t}.py")):
         _REASONS.update(getattr(importlib.import_module(f"manifest_text_{_t}"), "NOT_APPLICABLE_REASONS", {}))
